@@ -109,6 +109,11 @@ def reach_rule(ctx, f, g, cfg):
                 ctx.violation("C12.under-lock", "C12.under-lock|%s|%s|%s" % (b.path.replace("core::", "", 1), s["kind"], _origin_key(atoms)),
                               "%s in %s relies on a fact other threads can change and runs with %s held" % (s["callee"] or s["kind"], b.path, held), b.loc(s["bb"]), config=cfg)
             continue
+        dc = ps.discharge_in_context(s)
+        if dc:
+            counts["context"] = counts.get("context", 0) + 1
+            ctx.instance("C12.reach/context", "%s@%s" % (b.path, s["kind"]), dc, "discharged in every place the helper is inlined", True, cfg)
+            continue
         counts["undischarged"] += 1
         key = "C12.reach|%s|%s|%s" % (b.path.replace("core::", "", 1), s["kind"], _origin_key(atoms))
         ctx.instance("C12.reach", "%s@%s" % (b.path, s["kind"]), {"callee": s["callee"], "origin": _origin_key(atoms), "locks_held": held}, "discharged", False, cfg)
